@@ -86,3 +86,31 @@ claim('C18',
                   'record, exactly one invocation (default or override, with scheduler/object/now/new state) per registered object '
                   'in registration order (loop invariant over dict order + ghost g_ok), then exactly one next update event after '
                   'the new state\'s duration; register/unregister posts; constructor default is_cyclical=True read from the source.')
+
+claim('C13',
+      assumptions=[
+          A2, A4 + ' -- callbacks do not call shutdown / restore_functionality re-entrantly on the same machine (documented warning)',
+          'uptime / utilization are shown to be continuous across every method (no jump) with stamps set exactly while operational / '
+          'processing; that the getters then grow with slope 1 exactly in those states is immediate from their definition',
+          'event-handler preconditions (e.g. _finish_cycle runs only while operational with a part in process) rest on the hand lemma '
+          '"events of a machine that is down are paused or cancelled" (machine-checked pieces: _shutdown pauses/cancels all events of '
+          'the asset, frame scan: pause/cancel only with self.id)',
+          'visible-state semantics: other objects (environment, resource manager) satisfy their class invariants at call boundaries',
+      ],
+      explanation='state machine posts of shutdown / _shutdown / _fail / restore_functionality (idempotence, all events of the asset '
+                  'paused resp. cancelled, lost part reported once to every shutdown callback and in one device_failure record, '
+                  'finished part kept), give_part refuses and _pass_part_downstream does nothing while down, uptime_now / busy_now '
+                  'unchanged by every method, callbacks once each in registration order (ghost g_ok), default work-order hooks.')
+claim('C11',
+      assumptions=[
+          A2, A4,
+          'hand lemma (glue): pool usage == sum of the requirements of the processors holding reservations -- from C09\'s glue with '
+          'held == positive requirement entries (invariant holds_exactly_the_required_resources), when only processors reserve',
+          'requirement dictionaries have no negative entries (constructor input)',
+          'the RELEASE_RESERVED_RESOURCES handler runs only while the machine is operational (its event is paused/cancelled otherwise)',
+          'visible-state semantics for the resource manager at call boundaries',
+      ],
+      explanation='PartProcessor invariant: a reservation, if any, holds exactly the positive requirement entries, and a part is in '
+                  'process only with a reservation; _can_accept_part acquires atomically (C09 contract) or registers to wait exactly '
+                  'once; _fail and _release_resources_if_idle give everything back and reset the field; finishing schedules the '
+                  'release check at the same instant; shutdown keeps parts and resources.')
